@@ -14,12 +14,15 @@ let ierr_name = function
   | M.IEIdempotency -> "idempotency_conflict" | M.IEMalformed -> "malformed"
 
 let action_of_sx = function
+  | L [A "import_shift"; w; now; dl; dt] -> M.AImportShift (atom w = "1", zarg now, zarg dl, zarg dt)
   | L [A "import"; d; t; now] ->
     let t = int_of_string (atom t) in
     M.AImport (nat_of_int (int_of_string (atom d)), (if t < 0 then None else Some (nat_of_int t)), zarg now)
   | L [A "write"; A "single"; _; L ops] -> M.ASingle (List.map (function L [n; op] -> (zarg n, op_of op) | _ -> failwith "bad op") ops)
   | L [A "write"; A "bulk"; now; L ops] -> M.ABulk (zarg now, List.map (function L [_; op] -> op_of op | _ -> failwith "bad op") ops)
   | L [A "write"; A "atomic"; now; L ops] -> M.AAtomic (zarg now, List.map (function L [_; op] -> op_of op | _ -> failwith "bad op") ops)
+  (* a tree whose facade does not override BeginTX (before fixes/01-facade-begintx): the harness names the path so *)
+  | L [A "write"; A "atomic_unrepaired"; now; L ops] -> M.AAtomicUnrepaired (zarg now, List.map (function L [_; op] -> op_of op | _ -> failwith "bad op") ops)
   | _ -> failwith "bad action"
 
 (* observable classes, in the order of harness/go/vh/importx.go:impClasses *)
@@ -73,11 +76,12 @@ let result_sx_of a (act : M.action) = function
     let ops = (match act with M.ABulk (_, ops) -> ops | _ -> []) in
     L [A "write"; L (List.map entry_sx (M.respond M.bres_ok (List.map action_of ops) (M.tag_seq rs)))]
   | M.RAtomic (M.AResults rs) ->
-    let ops = (match act with M.AAtomic (_, ops) -> ops | _ -> []) in
+    let ops = (match act with M.AAtomic (_, ops) | M.AAtomicUnrepaired (_, ops) -> ops | _ -> []) in
     L [A "write"; L (ares_sx (List.map action_of ops) rs)]
   | M.RAtomic M.ACommitFailed -> L [A "write"; L [L [A "bulk_error"]]]
 
 let () = register "importx" (function
+  | L [A "importx_s11b"] -> L [A "importx_s11b"]     (* schema scenario: monitor only (Ledger/Core.v has no schemas) *)
   | L [A "importx"; feat; L ops; L script] ->
     let f = features_of feat in
     let h = List.map (function L [n; op] -> (zarg n, op_of op) | _ -> failwith "bad op") ops in
